@@ -133,6 +133,19 @@ CHECKS = {
  "C18": ("Coq theorems C18_unhex_hex / C18_hex_unhex / C18_rejects / C18_total about the model of hexify/unhexify (all byte strings, all strings), with the "
          "slicing panic and the lenient from_str_radix kept as partial primitives behind the guard; K-hex channel: exhaustive short inputs + seeded random.",
          "u8::from_str_radix and str slicing are modelled; inputs are valid UTF-8 (&str).", "DESIGN.md section 6 C18"),
+ "C19": ("Coq theorem C19_faults_rejected: for every well-formed bundle and every fault of Spec/Faults.v (the property's classes as data with "
+         "positions: missing / one extra item in primary, canonical, timestamp, ipn pair, hop-count pair; EID extra item / missing scheme; CRC "
+         "wrong length, present vs type 0, absent vs type 1/2; ANY negative / float16/32/64 / null / text / bytes / array / map item at every "
+         "unsigned field; ANY integer / string / map at every array position incl. the blocks; integer at byte-string fields; unknown scheme, "
+         "ipn node 0; extension-block data of another shape, with trailing bytes or with an inner fault; missing break; trailing bytes) the bytes "
+         "`apply_fault` produces from the RFC 9171 item tree are answered with Err by the decoder model — proved by propagation of 'not Ok' through "
+         "every serde combinator, counting lemmas for definite arrays and totality (C06); C19_baseline_accepted / C19_fault_tree_is_rfc: the "
+         "unfaulted tree is the conformant encoding and is accepted; C19_classes_inhabited: every class applicable and rejected on a concrete "
+         "bundle (vm_compute). K-dec on the fault stream: for every generated bundle EVERY applicable (fault, position), injected by the Python "
+         "reference encoder's twin of apply_fault (compared byte for byte with the extracted apply_fault on ~14 000 faults every run); oracle: ERR.",
+         "serde_cbor/serde/serde_bytes behaviour is modelled, not verified; documented leniencies (dtn ssp position, fragment fields by count, "
+         "definite outer / indefinite inner arrays, tags, non-shortest heads, text or u8-array as byte string) are outside the fault classes.",
+         "DESIGN.md section 6 C19"),
 }
 
 PENDING = {
